@@ -54,7 +54,7 @@ def main():
             res = {}
             for pid in ("C10", "C16"):
                 env = dict(os.environ, VERIF_REPO=MUT)
-                r = subprocess.run(["./check", pid], cwd=ROOT, env=env, stdout=subprocess.PIPE, stderr=subprocess.STDOUT, text=True)
+                r = subprocess.run([sys.executable, "notes/check_fast.py", pid], cwd=ROOT, env=env, stdout=subprocess.PIPE, stderr=subprocess.STDOUT, text=True)
                 lines = [l for l in r.stdout.splitlines() if l.startswith(("VIOLATION", "violation", "OK"))]
                 res[pid] = (r.returncode, " | ".join(l[:160] for l in lines[:2]))
             rows.append((name, what, res))
